@@ -232,7 +232,19 @@ impl Spec for C13 {
                                 if rax == 0 {
                                     return Err(div("brk|query-returned-null", "first brk(0) returned 0".to_string()));
                                 }
-                                m2.h = Some(rax);
+                                // the heap base is where the heap area starts (the first break
+                                // lies above it by the initial heap size): the property lets the
+                                // guest move the break anywhere at or above the BASE
+                                let base = ax
+                                    .verif_areas()
+                                    .iter()
+                                    .find(|a| a.start as u128 + a.length as u128 == rax as u128 && !m.others.iter().any(|(s, _)| *s == a.start))
+                                    .map(|a| a.start);
+                                let base = match base {
+                                    Some(b) => b,
+                                    None => return Err(div("brk|no-heap-area-below-first-break", format!("first brk(0) returned {rax:#x} but no area ends there"))),
+                                };
+                                m2.h = Some(base);
                                 m2.k = rax;
                             }
                             Some(_) => {
@@ -356,7 +368,7 @@ pub fn run(tier: Tier) -> i32 {
     }
     let depth = std::env::var("VERIF_DEPTH").ok().and_then(|s| s.parse().ok()).unwrap_or(if tier.is_thorough() { 12 } else { 9 });
     let out = run_stexp(Arc::clone(&spec), depth, crate::common::ncpu(), 1 << 30, if tier.is_thorough() { 1500 } else { 45 });
-    st_evidence(&mut run, &out, depth, "guest syscall brk(p) with p in {0, H, H+1, H+0x10, H+0x1000, H+0x1001, H+0x3000, K} (H = first break returned, K = model break); guest `mov [rbx],al` / `mov al,[rbx]` at {H, H+1, K-1, middle}; 4 layouts (code only, area just above the heap, area at 0x2000, area far above)");
+    st_evidence(&mut run, &out, depth, "guest syscall brk(p) with p in {0, H, H+1, H+0x10, H+0x1000, H+0x1001, H+0x3000, K} (H = heap base = start of the heap area, K = model break; the first break lies 0x1000 above H); guest `mov [rbx],al` / `mov al,[rbx]` at {H, H+1, K-1, middle}; 4 layouts (code only, area just above the heap, area at 0x2000, area far above)");
     run.guard("states", out.states >= 20, format!("{} states", out.states));
     run.assume("brk below the heap base and accesses at or above the break are not enumerated; bytes released by a shrink are forgotten by the model");
     let spec2 = Arc::clone(&spec);
